@@ -84,6 +84,14 @@ func verifBuildASAMenu(s *State, k int) *verifASAMenu {
 	return m
 }
 
+// index of a plain line body in the menu; the text may be the original or the
+// normalised (parsed) spelling that the tool prints in its commands
+func (mn *verifASAMenu) index(body string) int {
+	a := vf.LookupString(mn.body, body)
+	p := vf.LookupString(mn.parsed, body)
+	return vf.IteInt(vf.Not(vf.EqInt(a, -1)), a, p)
+}
+
 // verifBuildASAConfig makes a *Config from the description: the structure is
 // parsed from placeholder text by the real parser, then the symbolic texts
 // are filled in.
@@ -130,7 +138,7 @@ func verifBuildASAConfig(s *State, mn *verifASAMenu, d *verifASAConf, isDevice b
 			if l.grp != "" {
 				c.parsed = "access-list $NAME extended " + strings.Replace(l.body, "object-group "+l.grp, "object-group $REF", 1)
 			} else {
-				idx := vf.LookupString(mn.body, l.body)
+				idx := mn.index(l.body)
 				c.parsed = "access-list $NAME extended " + vf.SelectString(idx, mn.parsed)
 			}
 		}
@@ -405,7 +413,7 @@ func (m *verifASAConf) aclVerdict(mn *verifASAMenu, lines []verifASALine, p int)
 				}
 			}
 		} else {
-			idx := vf.LookupString(mn.body, l.body)
+			idx := mn.index(l.body)
 			act = vf.SelectInt(idx, verifASAActs(mn))
 			matches = false
 			mt := verifASAMatch(mn)
